@@ -205,6 +205,7 @@ func (fl *c16File) Close() error {
 		return &os.PathError{Op: "close", Path: fl.Name(), Err: syscall.EIO}
 	}
 	if err := fl.st.op("close", fl.Name()); err != nil {
+		fl.File.Close() // an injected failure of close still gives the descriptor back
 		return err
 	}
 	return fl.File.Close()
